@@ -10,6 +10,7 @@ import (
 	"path/filepath"
 	"strings"
 	"testing"
+	"time"
 
 	"github.com/whawty/auth/zz_verif/vlib"
 	"pgregory.net/rapid"
@@ -375,6 +376,32 @@ func TestC02HashFile(t *testing.T) {
 			if ex, _, _ := d.Exists(user); ex {
 				t.Fatalf("VIOLATION C02: user still exists after RemoveUser")
 			}
+		}
+		// "never ... a hang": having handled the file, the handle still serves an unrelated write promptly
+		// (normally microseconds to milliseconds; 60 s is a wedge, not slowness)
+		fresh := "zz-after-" + strings.TrimLeft(user, "-._@")
+		if !vlib.NameRe.MatchString(fresh) {
+			fresh = "zz-after"
+		}
+		doneCh := make(chan error, 1)
+		go func() {
+			err := d.AddUser(fresh, "after-password", false)
+			if err == nil {
+				err = d.UpdateUser(fresh, "after-password-2")
+			}
+			doneCh <- err
+		}()
+		select {
+		case err := <-doneCh:
+			if err != nil {
+				t.Fatalf("VIOLATION C02: after handling the file %s, adding and updating an unrelated user %q failed: %v", vlib.Q(first), fresh, err)
+			}
+			if ok, _, _, _, _ := d.Authenticate(fresh, "after-password-2"); !ok {
+				t.Fatalf("VIOLATION C02: unrelated user %q added after handling the file does not authenticate", fresh)
+			}
+			vlib.Class("handle-still-serves-writes-afterwards")
+		case <-time.After(60 * time.Second):
+			t.Fatalf("VIOLATION C02: hang: after handling the file %s [%s/%s, class %s], AddUser/UpdateUser of an unrelated user did not return within 60 s", vlib.Q(first), mu.Kind, mu.Field, class)
 		}
 		if class != "VALID" && mu.Kind != "whole-file" && mu.Kind != "line2" {
 			vlib.NT("c02", mu.Kind, mu.Field, set.Alg, class, len(mu.Content)/16)
